@@ -360,8 +360,8 @@ def changesetLine (st : CState) (line : String) : CState × List String :=
         -- beforehand: the model's `clear` with the result `panic` when at least `n` amounts are destroyed. From here on
         -- every verdict of the monitor is also a C19 verdict (state after a caught destructor panic).
         let st := { st with clears := st.clears + 1 }
-        let (st, o1) := match st.model.clear with
-          | .ok (m', d) => cmp st m' [if d.length ≥ max n 1 then "panic" else "ok"] d
+        let (st, o1) := match st.model.clearFault n with
+          | .ok (m', d, panicked) => cmp st m' [if panicked then "panic" else "ok"] d
           | x => mfail st (outStr (fun _ => "ok") x)
         let want := allExp st
         let (st, o2) :=
